@@ -14,6 +14,9 @@ package lib
 //   H<n>:<frame>        n frames equal to <frame> except that the serial counts up (mod 65536)
 //   P<a>:<b>:<frame>    b-a frames equal to <frame> except that the id runs through a..b-1
 //   C<cmd>:<body>       a platform command issued with SendActiveMessage (lock step, 2 ms time-out)
+//   Q<body>:<frame>     a 0x9003 query issued with SendActiveMessage and left OUTSTANDING (5 s time-out); as soon as
+//                       its frame has been read back the terminal's answer <frame> (a 0x1003 with a 10-byte body)
+//                       is sent and the player waits for SendActiveMessage to return
 // A frame with id 0x8003 is echoed by the server through another channel: the player waits for
 // the echo before it goes on (the generator puts a barrier in front of it).
 
@@ -239,6 +242,17 @@ func RpParseItems(toks []string) ([]RpItem, error) {
 			a := strings.Split(r, ":")
 			c, _ := strconv.Atoi(a[0])
 			out = append(out, RpItem{Kind: k, Cmd: uint16(c), Body: Unhx(a[1])})
+		case 'Q':
+			a := strings.Split(r, ":")
+			if len(a) != 2 {
+				return nil, fmt.Errorf("Q")
+			}
+			w := Unhx(a[1])
+			f, ok := RpDecode(w)
+			if !ok || f.ID != 0x1003 || len(f.Body) != 10 || f.Frag {
+				return nil, fmt.Errorf("Q")
+			}
+			out = append(out, RpItem{Kind: k, Cmd: 0x9003, Body: Unhx(a[0]), Send: [][]byte{w}, Deliv: []RpDelivered{{F: f, Data: w}}})
 		default:
 			return nil, fmt.Errorf("item %q", t)
 		}
@@ -270,10 +284,11 @@ type RpRec struct {
 	once    sync.Once
 	Problem []string // read-before-write violations noticed while recording
 	seen    map[*jt808.JTMessage]bool
+	seenH   map[*jt808.JTMessage]bool
 }
 
 func newRpRec() *RpRec {
-	return &RpRec{left: make(chan struct{}), seen: map[*jt808.JTMessage]bool{}}
+	return &RpRec{left: make(chan struct{}), seen: map[*jt808.JTMessage]bool{}, seenH: map[*jt808.JTMessage]bool{}}
 }
 
 func (r *RpRec) add(reader bool, kind string, m *service.Message, withPlatform bool) {
@@ -291,10 +306,16 @@ func (r *RpRec) add(reader bool, kind string, m *service.Message, withPlatform b
 		if kind == "E" {
 			r.seen[m.JTMessage] = true
 		}
+		if kind == "H" {
+			r.seenH[m.JTMessage] = true
+		}
 	} else {
 		r.Writer = append(r.Writer, ev)
 		if kind == "e" && uint16(m.Command) != 0x8003 && !r.seen[m.JTMessage] {
 			r.Problem = append(r.Problem, fmt.Sprintf("write callback for id=%04x serial=%d before its read callback", ev.ID, ev.Serial))
+		}
+		if kind == "h" && uint16(m.Command) != 0x8003 && !r.seenH[m.JTMessage] {
+			r.Problem = append(r.Problem, fmt.Sprintf("Handler write callback for id=%04x serial=%d before the Handler's read callback", ev.ID, ev.Serial))
 		}
 	}
 	r.mu.Unlock()
@@ -563,6 +584,43 @@ func (s *RpSrv) RpPlay(items []RpItem, flush int) *RpResult {
 				s.G.SendActiveMessage(service.NewActiveMessage(key, consts.JT808CommandType(it.Cmd), it.Body, 2*time.Millisecond))
 			}
 			continue
+		}
+		if it.Kind == 'Q' {
+			flushNow()
+			rec.mu.Lock()
+			key, joined := rec.Key, rec.Joined
+			rec.mu.Unlock()
+			count9003 := func() int {
+				cl.mu.Lock()
+				defer cl.mu.Unlock()
+				n := 0
+				for _, w := range cl.frames {
+					if f, ok := RpDecode(w); ok && f.ID == 0x9003 {
+						n++
+					}
+				}
+				return n
+			}
+			if joined {
+				before := count9003()
+				done := make(chan struct{})
+				go func() {
+					s.G.SendActiveMessage(service.NewActiveMessage(key, consts.JT808CommandType(it.Cmd), it.Body, 5*time.Second))
+					close(done)
+				}()
+				if !rpWait(wait, func() bool { return count9003() > before }) {
+					res.Timeout = "query"
+					break
+				}
+				conn.Write(it.Send[0])
+				select {
+				case <-done:
+				case <-time.After(wait):
+					res.Timeout = "answer"
+				}
+				continue
+			}
+			s.G.SendActiveMessage(service.NewActiveMessage(key, consts.JT808CommandType(it.Cmd), it.Body, 2*time.Millisecond))
 		}
 		for i, w := range it.Send {
 			pend = append(pend, w...)
